@@ -185,6 +185,21 @@ func c15Run(c *evid.Ctx, cs c15Case) {
 	if !check("in-process") {
 		return
 	}
+	// a further batch in the same process (same writer, possibly the same segment) must not
+	// disturb what was just acknowledged
+	{
+		e2, _ := c15Entry(l.Last+1, 77, 5)
+		if err := w.StoreLogs([]*raft.Log{e2}); err != nil {
+			c.Violation("C15:append-after:"+cs.Class, fmt.Sprintf("append right after an entry of encoded size %d failed: %v", gotEnc, err), replay)
+			return
+		}
+		hooksWait(w)
+		batch = append(batch, e2)
+		l.Append([]*raft.Log{e2}, 1500, true)
+		if !check("after-next-batch-in-process") {
+			return
+		}
+	}
 	// earlier entries must be intact too
 	obs := drv.Observe(w, model.ProbeSet(nil, l))
 	if gotEnc < 1<<20 {
@@ -203,16 +218,28 @@ func c15Run(c *evid.Ctx, cs c15Case) {
 	if !check("after-reopen") {
 		return
 	}
-	// one more append after the big one
-	e3, _ := c15Entry(l.Last+1, 25, 9)
-	if err := w.StoreLogs([]*raft.Log{e3}); err != nil {
-		c.Violation("C15:append-after:"+cs.Class, err.Error(), replay)
+	// more appends after the big one; everything accepted so far must still read back
+	for k := 0; k < 2; k++ {
+		e3, _ := c15Entry(l.Last+1, 25+k*300, 9)
+		if err := w.StoreLogs([]*raft.Log{e3}); err != nil {
+			c.Violation("C15:append-after:"+cs.Class, err.Error(), replay)
+			return
+		}
+		hooksWait(w)
+		batch = append(batch, e3)
+		l.Append([]*raft.Log{e3}, 2000+k, true)
+	}
+	if !check("after-later-appends") {
 		return
 	}
-	var out raft.Log
-	if err := w.GetLog(e3.Index, &out); err != nil || model.LogDiff(&out, e3) != "" {
-		c.Violation("C15:append-after-read:"+cs.Class, fmt.Sprint(err), replay)
+	drv.CloseWAL(w)
+	w, err = drv.OpenSim(disk, drv.Cfg{SegSize: cs.Seg})
+	if err != nil {
+		w = nil
+		c.Violation("C15:reopen-failed:"+cs.Class, fmt.Sprintf("second reopen failed: %v", err), replay)
+		return
 	}
+	check("after-later-appends-and-reopen")
 }
 
 func hooksWait(w *wal.WAL) { hooks.WaitRotation(w, drv.Watchdog) }
@@ -249,6 +276,14 @@ func runC15(c *evid.Ctx) {
 		}
 		add(seg, seg*2+rng.Intn(100), ">segment")
 		add(seg, seg*3+rng.Intn(1000), ">segment")
+	}
+	// between the read buffer and the maximum: batches of several MiB that do not fill
+	// their segment (so later batches land behind them in the same file)
+	for _, enc := range []int{1<<20 - 9, 1<<20 + 1, 2<<20 + 5, 5<<20 + 3} {
+		if q && enc > 3<<20 {
+			continue
+		}
+		cases = append(cases, c15Case{Seg: 16 << 20, Enc: enc, Pos: positions[rng.Intn(4)], Class: "multi-MiB", Prefill: rng.Intn(3), StartIdx: 1})
 	}
 	// the 64MiB edge, default segment size
 	edge := []int{-1, 0, 1, 9}
